@@ -4,8 +4,13 @@
 // `rejected`; any other unwinding is a genuine panic.
 //
 // case line:   <tag> <hex of the file> [<anything the oracle needs> ...]
+//              garb|garh <hex of the document> <seed> <variant> <lk> <ll> <gk> <gl> <tk> <tl> [o]
+//                 size-sweep cases: the file is the document with filler (kind, length) before the header, in the gap
+//                 before the last `startxref` and after the last %%EOF; expanded by `case_bytes` exactly as
+//                 Driver/C03.lean `garbFile` does (see there for the kinds)
 // output:      rejected
 //            | ok <root num> <root gen> | <num> <gen> <value sexp> | ...      (defined ids in map order)
+//              (garb / garh cases: followed by ` @<file offset of the header as reported by FileInfo>`)
 //            | panic <message>
 use parsley_rust::pdf_lib::pdf_traverse_xref::{parse_data, VerifExit};
 use std::panic::{catch_unwind, AssertUnwindSafe};
@@ -13,18 +18,81 @@ use std::path::Path;
 use verif_harness::objfmt::obj_sexp;
 use verif_harness::unhex;
 
+const PAT2: &[u8] = b"%PDF 1.4\n%PDF_1.7 %PDF\n%%EOF\nstartxref\n0\n%%EOF\nxref\n0 1\n0000000000 65535 f \ntrailer\n<< /Size 1 /Root 1 0 R >>\n";
+const PAT3: &[u8] = b"1.4\n1 0 obj\n<< /Type /Catalog /Pages 2 0 R >>\nendobj\n2 0 obj\n<< /Type /Pages /Kids [] /Count 0 >>\nendobj\nxref\n0 3\n0000000000 65535 f \n0000000004 00000 n \n0000000053 00000 n \ntrailer\n<< /Size 3 /Root 1 0 R >>\nstartxref\n109\n%%EOF\n";
+const PAT4: &[u8] = b"%%EO\n%EOF\nstartxref\n7\n%%E0F %%EOf\n%PDF-1.7\ntrailer\n<< /Size 9 >>\nstartxre\n";
+const PAT5: &[u8] = b" \n\r\n\t % padding\n  ";
+
+/// filler bytes: a pure function of (kind, length, salt); mirrors `Driver.C03.fill`
+fn fill(kind: u64, len: usize, salt: u64) -> Vec<u8> {
+    let mut v = Vec::with_capacity(len);
+    match kind {
+        0 => v.resize(len, 0u8),
+        1 => {
+            let mut s: u64 = salt % 2147483648;
+            for _ in 0 .. len {
+                s = (s * 1103515245 + 12345) % 2147483648;
+                let b = ((s / 65536) % 256) as u8;
+                v.push(if b == 37 { 36 } else { b });
+            }
+        },
+        k => {
+            let p = match k {
+                2 => PAT2,
+                3 => PAT3,
+                4 => PAT4,
+                _ => PAT5,
+            };
+            for i in 0 .. len {
+                v.push(p[((salt as usize) + i) % p.len()]);
+            }
+        },
+    }
+    v
+}
+
+/// the file of a case: word 2, or (garb / garh) the document of word 2 with its three fillers
+pub fn case_bytes(w: &[&str]) -> Vec<u8> {
+    let doc = unhex(w[1]);
+    if !(w[0] == "garb" || w[0] == "garh") || w.len() < 10 {
+        return doc
+    }
+    let n = |i: usize| -> u64 { w[i].parse::<u64>().unwrap_or(0) };
+    let seed = n(2);
+    let tag = b"startxref";
+    let mut gp = doc.len();
+    if doc.len() >= tag.len() {
+        for i in (0 ..= doc.len() - tag.len()).rev() {
+            if &doc[i .. i + tag.len()] == tag {
+                gp = i;
+                break
+            }
+        }
+    }
+    let mut out = fill(n(4), n(5) as usize, seed);
+    out.extend_from_slice(&doc[.. gp]);
+    out.extend_from_slice(&fill(n(6), n(7) as usize, seed + 1));
+    out.extend_from_slice(&doc[gp ..]);
+    out.extend_from_slice(&fill(n(8), n(9) as usize, seed + 2));
+    out
+}
+
 pub fn load_line(line: &str) -> String {
     let w: Vec<&str> = line.split(' ').filter(|x| !x.is_empty()).collect();
     if w.len() < 2 {
         return "bad-case".to_string()
     }
-    let data = unhex(w[1]);
+    let data = case_bytes(&w);
+    let with_hdr = w[0] == "garb" || w[0] == "garh";
     let r = catch_unwind(AssertUnwindSafe(|| {
-        let (_fi, ctxt, root) = parse_data(Path::new("case.pdf"), &data);
+        let (fi, ctxt, root) = parse_data(Path::new("case.pdf"), &data);
         let mut out = format!("ok {} {}", root.0, root.1);
         for id in ctxt.verif_ids() {
             let o = ctxt.lookup_obj(id).unwrap();
             out.push_str(&format!(" | {} {} {}", id.0, id.1, obj_sexp(o.val())));
+        }
+        if with_hdr {
+            out.push_str(&format!(" @{}", fi.file_offset(0)));
         }
         out
     }));
